@@ -22,7 +22,7 @@ Go function → Lean definition
 * harness conventions (`harness/c08/c08.go`): markers `~` inapplicable, `!` fault (Go panic), `^` slice bounds outside
   `0 ≤ i ≤ j ≤ len`, `-` observer; mapper / predicate / comparator alphabets `Fn`, `Pred`, `Val.render` order.
 -/
-namespace Pcore.Coll
+namespace Pcore.Heap
 
 inductive Val where
   | int (i : Int)
@@ -526,4 +526,4 @@ def stepPure (s : PState) (op : Op) : PState :=
 
 def runPure (ops : List Op) : PState := ops.foldl stepPure {}
 
-end Pcore.Coll
+end Pcore.Heap
